@@ -67,4 +67,13 @@ pub broadcast proof fn lemma_tail_cons(c: Context, r: Seq<Context>)
 pub broadcast proof fn lemma_window_all(r: Seq<Context>)
     ensures #[trigger] window(0, None, r) =~= r,
 {}
-pub broadcast group group_rows { lemma_tail_cons, lemma_window_all }
+pub broadcast proof fn lemma_add_assoc(a: Seq<Context>, b: Seq<Context>, c: Seq<Context>)
+    ensures #[trigger] a.add(b).add(c) =~= a.add(b.add(c)),
+{}
+pub broadcast proof fn lemma_add_empty_left(a: Seq<Context>)
+    ensures #[trigger] Seq::<Context>::empty().add(a) =~= a,
+{}
+pub broadcast proof fn lemma_add_empty_right(a: Seq<Context>)
+    ensures #[trigger] a.add(Seq::<Context>::empty()) =~= a,
+{}
+pub broadcast group group_rows { lemma_tail_cons, lemma_window_all, lemma_add_empty_left, lemma_add_empty_right }
